@@ -58,6 +58,8 @@ def generate(tier, rng):
     n_random = 5000 if tier == "quick" else 60000
     for v, _ in GOLDEN:
         yield {"v": v, "ps": 1, "fs": True}
+    for v in ({"path": "data/run1"}, {"p/q": ["a/b", {"c": "/"}], "n": 1}, {"u": "\u00e9/\\", "t": "tab\there"}):
+        yield {"v": v, "ps": 1, "fs": True}     # strings with '/', '\\', non-ASCII: JSON texts with escapes
     i = 0
     for v in small_values():
         i += 1
@@ -78,6 +80,31 @@ def shrink(case):
     for v in gen.shrink_value(case["v"]):
         if isinstance(v, dict):
             yield dict(case, v=v)
+
+
+def _cli_job(path, text):
+    """`signac job <text>` in-process with the project directory as cwd -> (printed word, exit code)"""
+    import contextlib
+    import io
+    import sys
+
+    import signac.__main__ as M
+
+    out, err = io.StringIO(), io.StringIO()
+    old_argv, old_cwd = sys.argv, os.getcwd()
+    code = 0
+    try:
+        os.chdir(path)
+        sys.argv = ["signac", "job", text]
+        with contextlib.redirect_stdout(out), contextlib.redirect_stderr(err):
+            try:
+                M.main()
+            except SystemExit as e:
+                code = e.code if isinstance(e.code, int) else (0 if e.code is None else 1)
+    finally:
+        sys.argv = old_argv
+        os.chdir(old_cwd)
+    return out.getvalue().strip(), code
 
 
 def ref_id(v):
@@ -254,6 +281,70 @@ def run_case(case, ctx):
                     x, got, seq[0], ref_id(plainx)))
     finally:
         ctx.cleanup(d0)
+    # the command line: `signac job '<JSON text>'` prints the id of the value the text DENOTES, however the text
+    # spells it (key order, white space, \/ and \uXXXX escapes, non-ASCII kept or escaped)
+    if case.get("fs"):
+        dc = ctx.fresh_dir("c01c")
+        try:
+            signac.init_project(dc)
+            plainv = json.loads(json.dumps(v))
+            texts = {"compact": json.dumps(plainv, separators=(",", ":")),
+                     "sorted, indented, non-ASCII kept": json.dumps(plainv, sort_keys=True, indent=1, ensure_ascii=False)}
+            texts["solidus escaped"] = texts["compact"].replace("/", "\\/")
+            texts["all string characters as \\uXXXX"] = json.dumps(plainv).replace("/", "\\u002f")
+            for how, text in texts.items():
+                if text.startswith("-") or json.loads(text) != plainv:
+                    continue
+                got, code = _cli_job(dc, text)
+                if code != 0 or got != ref_id(plainv):
+                    oracle.append("`signac job` on the %s text %s printed %r (exit %s); md5 of the canonical text of the value = %s" % (
+                        how, text[:120], got, code, ref_id(plainv)))
+            tags.append("cli-job")
+        finally:
+            ctx.cleanup(dc)
+    # "the id changes whenever the JSON value changes": an IN-PLACE change of one entry to a value that Python compares
+    # equal (1 -> 1.0 -> True; inside nested mappings and lists too) is a change of the JSON value
+    def retype(x):
+        if x is True or x is False:
+            return int(x)
+        if isinstance(x, int) and abs(x) < 2**53:
+            return float(x)
+        if isinstance(x, float) and x.is_integer() and abs(x) < 2**53:
+            return int(x)
+        if isinstance(x, dict):
+            for kk in sorted(x):
+                r = retype(x[kk])
+                if r is not None:
+                    return dict(x, **{kk: r})
+        if isinstance(x, list):
+            for n, y in enumerate(x):
+                r = retype(y)
+                if r is not None:
+                    return x[:n] + [r] + x[n + 1:]
+        return None
+
+    cands = [(k_, retype(x_)) for k_, x_ in sorted(v.items()) if retype(x_) is not None]
+    if case.get("fs") and cands:
+        k_, new_ = cands[case["ps"] % len(cands)]
+        d5 = ctx.fresh_dir("c01r")
+        try:
+            p5 = signac.init_project(d5)
+            j5 = p5.open_job(copy.deepcopy(v)).init()
+            target = json.loads(json.dumps(dict(v, **{k_: new_})))
+            try:
+                j5.sp[k_] = copy.deepcopy(new_)
+                got5 = {"handle id": j5.id, "handle state point": calc_id(j5.statepoint()),
+                        "directory": ",".join(sorted(os.listdir(p5.workspace))),
+                        "fresh session": ",".join(sorted(calc_id(x.statepoint()) for x in signac.Project(d5)))}
+            except Exception as e:  # noqa: BLE001
+                got5 = {"assignment": "EXC:" + exc_name(e)}
+            for what, g in got5.items():
+                if g != ref_id(target):
+                    oracle.append("after job.sp[%r] = %r on %r: %s gives %s, md5 of the canonical text of the new value = %s" % (
+                        k_, new_, v, what, g, ref_id(target)))
+            tags.append("inplace-retype")
+        finally:
+            ctx.cleanup(d5)
     if case.get("fs"):
         tags.append("fs")
         d = ctx.fresh_dir("c01")
